@@ -292,6 +292,29 @@ def variants(rng, doc, cls, per_kind: int | None = None):
                 i["rectangles"] = rs
                 i.pop("flip", None)
                 yield from out(tag, d)
+            # an overlap between rectangles that are not neighbours in any sweep order: a long rectangle over r whose
+            # centre is far away, and a disjoint filler whose centre lies in between (once per direction)
+            for direction in ("right", "left", "up", "down"):
+                kk = rng.choice(hard)
+                d = deep(doc)
+                i = d["Modules"][kk]
+                rs = [list(r) for r in rects_of(i)]
+                r = rng.choice(rs)
+                x, y, w, h = (val(v) for v in r[:4])
+                far = max([val(q[1]) + val(q[3]) for q in rs] + [val(q[0]) + val(q[2]) for q in rs]) * 4 + 8
+                if direction == "right" or (direction == "left" and x - w / 4 - 10 * w < 0):
+                    new, extra = [x + w / 4 + 5 * w, y, 10 * w, h / 2], [x + 2 * w, far + y, w, h]
+                elif direction == "left":
+                    new, extra = [x - w / 4 - 5 * w, y, 10 * w, h / 2], [max(x - 2 * w, w / 2), far + y, w, h]
+                elif direction == "up" or y - h / 4 - 10 * h < 0:
+                    new, extra = [x, y + h / 4 + 5 * h, w / 2, 10 * h], [far + x, y + 2 * h, w, h]
+                else:
+                    new, extra = [x, y - h / 4 - 5 * h, w / 2, 10 * h], [far + x, max(y - 2 * h, h / 2), w, h]
+                for q in (new, extra):
+                    rs.insert(rng.randrange(0, len(rs) + 1), [F(v) for v in q])
+                i["rectangles"] = rs
+                i.pop("flip", None)
+                yield from out("bridge-" + direction, d)
     elif cls == "unknown-attribute":
         def valid_value(key):
             return {"area": 4, "center": [F(1), 2], "aspect_ratio": F(1, 2), "terminal": True, "hard": True,
